@@ -174,13 +174,20 @@ class generate_source_patches:
         return True
 
 
-@_external("sqlfluff.core.linter.patch:merge_source_patches", PROP)
+@spec(uninterpreted=True)
+def merged(ps: TList(FixPatch)) -> BOOL:
+    """`ps` is an output of merge_source_patches (what that means -- pairwise non-conflicting, duplicate-free, sorted -- is
+    proved under C30)"""
+    return True
+
+
+@_external("sqlfluff.core.linter.patch:merge_source_patches", (PROP, "C30"))
 class merge_source_patches:
     types = {"variant_patches": TList(TList(FixPatch))}
     ret = TList(FixPatch)
 
     def ensures(variant_patches, result):
-        return True
+        return merged(result)
 
 
 @_external("sqlfluff.core.config.fluffconfig:FluffConfig.get", PROP)
@@ -266,7 +273,7 @@ def once_and_ordered(vs):
                     for i in range(len(vs)) for j in range(i + 1, len(vs))))
 
 
-@contract("sqlfluff.core.linter.linter:Linter.lint_parsed#violations-flow", PROP)
+@contract("sqlfluff.core.linter.linter:Linter.lint_parsed#violations-flow", (PROP, "C30"))
 class lint_parsed_flow:
     region = ("violations: list[SQLBaseError] = list(parsed.templating_violations)", "if formatter:")
     region_params = ["cls", "parsed", "rule_pack", "fix", "formatter", "encoding", "time_dict", "tree", "templated_file",
@@ -279,8 +286,13 @@ class lint_parsed_flow:
     ghost_out = {"linted_file": LintedFile}
     raises = {"AssertionError": None}
 
-    def ensures(parsed, linted_file):
-        return once_and_ordered(linted_file.violations)
+    def ensures(parsed, fix, root_variant, merged_source_patches, linted_file):
+        return (once_and_ordered(linted_file.violations)
+                # C30 at the call site: whenever fixes were generated, the patches stored on the file went through
+                # merge_source_patches (so they inherit its proved postcondition), whatever the number of variants
+                and implies(fix and root_variant is not None,
+                            linted_file.source_patches is not None and merged(linted_file.source_patches))
+                and implies(not (fix and root_variant is not None), linted_file.source_patches == merged_source_patches))
 
     def inv_1(violations):
         return True
